@@ -203,16 +203,27 @@ def stress_check(kind, case, rec):
         solid.assemble.vector(fc)
         P = np.asarray(solid.results.stress[0]).copy()
     else:
+        # the solid is created and evaluated at another state first; the field is then changed in place, so that every
+        # reported quantity has to be re-evaluated for the field handed over (the order of the three requests is drawn)
+        target = fld.values.copy()
+        fld.values[...] = -0.4 * target
         solid = fem.SolidBody(um, fc)
+        solid.assemble.vector(fc)
+        fld.values[...] = target
         P = np.asarray(um.gradient([F.copy(), None])[0], float).copy()
     tau = np.einsum("ij...,kj...->ik...", P, F)
     sig = tau / J
     sc = max(float(np.abs(tau).max()), 1e-9)
     rec.nontrivial = mesh.ncells >= 2
-    rec.close("kirchhoff=P F^T", float(np.abs(np.asarray(solid.evaluate.kirchhoff_stress(fc)) - tau).max()) / sc, 1e-11, {"material": case["mat"]["name"]})
-    rec.close("cauchy=P F^T/J", float(np.abs(np.asarray(solid.evaluate.cauchy_stress(fc)) - sig).max()) / sc, 1e-11)
-    if kind != "nearlyincompressible":
-        rec.close("stress=P", float(np.abs(np.asarray(solid.evaluate.gradient(fc)[0]) - P).max()) / sc, 1e-12)
+    order = [("kirchhoff", "cauchy", "stress"), ("cauchy", "stress", "kirchhoff"), ("stress", "kirchhoff", "cauchy")][case["seed"] % 3]
+    rec.label("first-request=" + order[0])
+    for what in order:
+        if what == "kirchhoff":
+            rec.close("kirchhoff=P F^T", float(np.abs(np.asarray(solid.evaluate.kirchhoff_stress(fc)) - tau).max()) / sc, 1e-11, {"material": case["mat"]["name"], "first": order[0]})
+        elif what == "cauchy":
+            rec.close("cauchy=P F^T/J", float(np.abs(np.asarray(solid.evaluate.cauchy_stress(fc)) - sig).max()) / sc, 1e-11, {"first": order[0]})
+        elif kind != "nearlyincompressible":
+            rec.close("stress=P", float(np.abs(np.asarray(solid.evaluate.gradient(fc)[0]) - P).max()) / sc, 1e-12, {"first": order[0]})
     if case["view"] != "skip" and kind != "nearlyincompressible":
         stype = case["view"]
         v = fem.ViewSolid(fc, solid=solid, stress_type=stype)
